@@ -415,14 +415,20 @@ impl Tunnel {
 
         if let Some(auth) = &forwarder_auth {
             let authenticator = forwarder.lock().unwrap().datagram_mux_authenticator();
-            if let Err(e) = authenticator
-                .check_auth(
+            // The check may need an outgoing connection (the SOCKS5 forwarder asks its
+            // upstream): like any connection made for a request it is bounded by the
+            // establishment timeout, so the request is answered even if the upstream is silent
+            if let Err(e) = tokio::time::timeout(
+                context.settings.connection_establishment_timeout,
+                authenticator.check_auth(
                     client_address,
                     &tls_domain,
                     auth.clone(),
                     user_agent.as_ref().map(String::as_ref),
-                )
-                .await
+                ),
+            )
+            .await
+            .unwrap_or(Err(ConnectionError::Timeout))
             {
                 return Err((Some(request), "Failed to authenticate", e));
             }
